@@ -570,6 +570,18 @@ func (s *Server) getWorkspaceResolved(docURI protocol.DocumentURI) *include.Reso
 	return s.GetResolved(docURI)
 }
 
+// resolvedWithPrimaryPath returns the resolved journal used for cross-file features together with
+// the path of the file its Primary journal was parsed from: the workspace root journal when the
+// workspace view is used, the document itself otherwise.
+func (s *Server) resolvedWithPrimaryPath(docURI protocol.DocumentURI) (*include.ResolvedJournal, string) {
+	if s.workspace != nil {
+		if resolved := s.workspace.GetResolved(); resolved != nil {
+			return resolved, s.workspace.RootJournalPath()
+		}
+	}
+	return s.GetResolved(docURI), uriToPath(docURI)
+}
+
 func (s *Server) RootURI() string {
 	return s.rootURI
 }
